@@ -441,8 +441,21 @@ TrMgrResult ==
                  phase, subs, subPos, addrNode, closeT, faultT, idle, ka, runStart, lastSend,
                  quietLen, callListed, pathOut, pathIn, closingH, beginT, shutIdle>>
 
+(* ActivePeers::remove is what Network::disconnect does (and what shutdown does for what  *)
+(* cancelled handlers left behind): while a network runs, a removal by peer is the         *)
+(* application's own disconnect() call - the harness logs obs.disconnect as soon as the    *)
+(* call returns, so it is the next record after the removal's events.  The library never   *)
+(* disconnects a peer by itself.                                                           *)
+RECURSIVE SkipApEvents(_)
+SkipApEvents(i) == IF i <= Len(Rec) /\ Rec[i].ev = "ap.event" THEN SkipApEvents(i + 1) ELSE i
+RemoveRequested ==
+  \/ phase[N] # "running"
+  \/ LET j == SkipApEvents(l + 1) IN
+       j <= Len(Rec) /\ Rec[j].ev = "obs.disconnect" /\ Rec[j].node = N /\ Rec[j].peer = Cur.peer
+
 TrApRemove ==
   /\ IsEvent("ap.remove")
+  /\ RemoveRequested
   /\ LET had == Cur.peer \in DOMAIN active[N] IN
      /\ Has(Cur, "removed") = had
      /\ had => Cur.removed = active[N][Cur.peer].gid
